@@ -194,7 +194,7 @@ def _region_before(root, node):
 def d_counter(F, s):
     n = s.node
     if n.get("k") == "AssignOp" and n["op"] in ("AddAssign", "SubAssign"):
-        ty = peel(n["lhs"]).get("ty", "")
+        ty = n["lhs"].get("ty", "")
         r = peel(n["rhs"])
         unit = lit(r) == ("i", 1) or (r.get("k") == "Binary" and r["op"] == "BitAnd" and lit(r["rhs"]) == ("i", 1))
         if unit and ty in WIDE and (n["op"] == "AddAssign" or ty in SIGNED):
